@@ -12,7 +12,7 @@ Lemma og_OBufNew : forall n L s a0 a1 a2 a3 a4 a5 s1 sends e,
 Proof.
   intros n L s a0 a1 a2 a3 a4 a5 s1 sends e I Hw H.
   cbn [wf_op] in Hw; try discriminate Hw; split_ands.
-  unfold obj_step, ok, fail in H.
+  unfold obj_step, obj_step_core, ok, fail in H.
   brk_hyp H; inversion H; subst; clear H.
   all: cbn [flat_map send_msgs app].
   all: cbn [op_ids].
@@ -38,7 +38,7 @@ Lemma og_OBufConsecutive : forall n L s a0 a1 a2 a3 a4 a5 s1 sends e,
 Proof.
   intros n L s a0 a1 a2 a3 a4 a5 s1 sends e I Hw H.
   cbn [wf_op] in Hw; try discriminate Hw; split_ands.
-  unfold obj_step, ok, fail in H.
+  unfold obj_step, obj_step_core, ok, fail in H.
   brk_hyp H; inversion H; subst; clear H.
   all: cbn [flat_map send_msgs app].
   all: cbn [op_ids].
@@ -67,7 +67,7 @@ Lemma og_OBufNewRead : forall n L s a0 a1 a2 a3 a4 a5 s1 sends e,
 Proof.
   intros n L s a0 a1 a2 a3 a4 a5 s1 sends e I Hw H.
   cbn [wf_op] in Hw; try discriminate Hw; split_ands.
-  unfold obj_step, ok, fail in H.
+  unfold obj_step, obj_step_core, ok, fail in H.
   brk_hyp H; inversion H; subst; clear H.
   all: cbn [flat_map send_msgs app].
   all: cbn [op_ids].
@@ -92,7 +92,7 @@ Lemma og_OBufNewCue : forall n L s a0 a1 a2 a3 a4 a5 a6 s1 sends e,
 Proof.
   intros n L s a0 a1 a2 a3 a4 a5 a6 s1 sends e I Hw H.
   cbn [wf_op] in Hw; try discriminate Hw; split_ands.
-  unfold obj_step, ok, fail in H.
+  unfold obj_step, obj_step_core, ok, fail in H.
   brk_hyp H; inversion H; subst; clear H.
   all: cbn [flat_map send_msgs app].
   all: cbn [op_ids].
@@ -124,7 +124,7 @@ Lemma og_OBufAlloc : forall n L s a0 a1 s1 sends e,
 Proof.
   intros n L s a0 a1 s1 sends e I Hw H.
   cbn [wf_op] in Hw; try discriminate Hw; split_ands.
-  unfold obj_step, ok, fail in H.
+  unfold obj_step, obj_step_core, ok, fail in H.
   brk_hyp H; inversion H; subst; clear H.
   all: cbn [flat_map send_msgs app].
   all: cbn [op_ids].
@@ -149,7 +149,7 @@ Lemma og_OBufAllocRead : forall n L s a0 a1 a2 a3 a4 a5 s1 sends e,
 Proof.
   intros n L s a0 a1 a2 a3 a4 a5 s1 sends e I Hw H.
   cbn [wf_op] in Hw; try discriminate Hw; split_ands.
-  unfold obj_step, ok, fail in H.
+  unfold obj_step, obj_step_core, ok, fail in H.
   brk_hyp H; inversion H; subst; clear H.
   all: cbn [flat_map send_msgs app].
   all: cbn [op_ids].
@@ -173,7 +173,7 @@ Lemma og_OBufRead : forall n L s a0 a1 a2 a3 a4 a5 a6 s1 sends e,
 Proof.
   intros n L s a0 a1 a2 a3 a4 a5 a6 s1 sends e I Hw H.
   cbn [wf_op] in Hw; try discriminate Hw; split_ands.
-  unfold obj_step, ok, fail in H.
+  unfold obj_step, obj_step_core, ok, fail in H.
   brk_hyp H; inversion H; subst; clear H.
   all: cbn [flat_map send_msgs app].
   all: cbn [op_ids].
@@ -197,7 +197,7 @@ Lemma og_OBufCue : forall n L s a0 a1 a2 a3 s1 sends e,
 Proof.
   intros n L s a0 a1 a2 a3 s1 sends e I Hw H.
   cbn [wf_op] in Hw; try discriminate Hw; split_ands.
-  unfold obj_step, ok, fail in H.
+  unfold obj_step, obj_step_core, ok, fail in H.
   brk_hyp H; inversion H; subst; clear H.
   all: cbn [flat_map send_msgs app].
   all: cbn [op_ids].
@@ -222,7 +222,7 @@ Lemma og_OBufWrite : forall n L s a0 a1 a2 a3 a4 a5 a6 a7 s1 sends e,
 Proof.
   intros n L s a0 a1 a2 a3 a4 a5 a6 a7 s1 sends e I Hw H.
   cbn [wf_op] in Hw; try discriminate Hw; split_ands.
-  unfold obj_step, ok, fail in H.
+  unfold obj_step, obj_step_core, ok, fail in H.
   brk_hyp H; inversion H; subst; clear H.
   all: cbn [flat_map send_msgs app].
   all: cbn [op_ids].
@@ -247,7 +247,7 @@ Lemma og_OBufSimple : forall n L s a0 a1 a2 s1 sends e,
 Proof.
   intros n L s a0 a1 a2 s1 sends e I Hw H.
   cbn [wf_op] in Hw; try discriminate Hw; split_ands.
-  unfold obj_step, ok, fail in H.
+  unfold obj_step, obj_step_core, ok, fail in H.
   brk_hyp H; inversion H; subst; clear H.
   all: cbn [flat_map send_msgs app].
   all: cbn [op_ids].
@@ -272,7 +272,7 @@ Lemma og_OBufFree : forall n L s a0 a1 s1 sends e,
 Proof.
   intros n L s a0 a1 s1 sends e I Hw H.
   cbn [wf_op] in Hw; try discriminate Hw; split_ands.
-  unfold obj_step, ok, fail in H.
+  unfold obj_step, obj_step_core, ok, fail in H.
   brk_hyp H; inversion H; subst; clear H.
   all: cbn [flat_map send_msgs app].
   all: cbn [op_ids].
@@ -298,7 +298,7 @@ Lemma og_OBufFreeAll : forall n L s  s1 sends e,
 Proof.
   intros n L s  s1 sends e I Hw H.
   cbn [wf_op] in Hw; try discriminate Hw; split_ands.
-  unfold obj_step, ok, fail in H.
+  unfold obj_step, obj_step_core, ok, fail in H.
   brk_hyp H; inversion H; subst; clear H.
   all: cbn [flat_map send_msgs app].
   all: cbn [op_ids].
@@ -325,7 +325,7 @@ Lemma og_OBufFill : forall n L s a0 a1 a2 a3 s1 sends e,
 Proof.
   intros n L s a0 a1 a2 a3 s1 sends e I Hw H.
   cbn [wf_op] in Hw; try discriminate Hw; split_ands.
-  unfold obj_step, ok, fail in H.
+  unfold obj_step, obj_step_core, ok, fail in H.
   brk_hyp H; inversion H; subst; clear H.
   all: cbn [flat_map send_msgs app].
   all: cbn [op_ids].
@@ -354,7 +354,7 @@ Lemma og_OBufSet : forall n L s a0 a1 s1 sends e,
 Proof.
   intros n L s a0 a1 s1 sends e I Hw H.
   cbn [wf_op] in Hw; try discriminate Hw; split_ands.
-  unfold obj_step, ok, fail in H.
+  unfold obj_step, obj_step_core, ok, fail in H.
   brk_hyp H; inversion H; subst; clear H.
   all: cbn [flat_map send_msgs app].
   all: cbn [op_ids].
@@ -383,7 +383,7 @@ Lemma og_OBufSetn : forall n L s a0 a1 s1 sends e,
 Proof.
   intros n L s a0 a1 s1 sends e I Hw H.
   cbn [wf_op] in Hw; try discriminate Hw; split_ands.
-  unfold obj_step, ok, fail in H.
+  unfold obj_step, obj_step_core, ok, fail in H.
   brk_hyp H; inversion H; subst; clear H.
   all: cbn [flat_map send_msgs app].
   all: cbn [op_ids].
@@ -413,7 +413,7 @@ Lemma og_OBufQuery : forall n L s a0 a1 s1 sends e,
 Proof.
   intros n L s a0 a1 s1 sends e I Hw H.
   cbn [wf_op] in Hw; try discriminate Hw; split_ands.
-  unfold obj_step, ok, fail in H.
+  unfold obj_step, obj_step_core, ok, fail in H.
   brk_hyp H; inversion H; subst; clear H.
   all: cbn [flat_map send_msgs app].
   all: cbn [op_ids].
@@ -435,7 +435,7 @@ Lemma og_OBufGet : forall n L s a0 a1 s1 sends e,
 Proof.
   intros n L s a0 a1 s1 sends e I Hw H.
   cbn [wf_op] in Hw; try discriminate Hw; split_ands.
-  unfold obj_step, ok, fail in H.
+  unfold obj_step, obj_step_core, ok, fail in H.
   brk_hyp H; inversion H; subst; clear H.
   all: cbn [flat_map send_msgs app].
   all: cbn [op_ids].
@@ -457,7 +457,7 @@ Lemma og_OBufGetn : forall n L s a0 a1 a2 s1 sends e,
 Proof.
   intros n L s a0 a1 a2 s1 sends e I Hw H.
   cbn [wf_op] in Hw; try discriminate Hw; split_ands.
-  unfold obj_step, ok, fail in H.
+  unfold obj_step, obj_step_core, ok, fail in H.
   brk_hyp H; inversion H; subst; clear H.
   all: cbn [flat_map send_msgs app].
   all: cbn [op_ids].
@@ -479,7 +479,7 @@ Lemma og_OBufGen : forall n L s a0 a1 a2 a3 a4 a5 s1 sends e,
 Proof.
   intros n L s a0 a1 a2 a3 a4 a5 s1 sends e I Hw H.
   cbn [wf_op] in Hw; try discriminate Hw; split_ands.
-  unfold obj_step, ok, fail in H.
+  unfold obj_step, obj_step_core, ok, fail in H.
   brk_hyp H; inversion H; subst; clear H.
   all: cbn [flat_map send_msgs app].
   all: cbn [op_ids].
@@ -511,7 +511,7 @@ Lemma og_OBufNormalize : forall n L s a0 a1 a2 s1 sends e,
 Proof.
   intros n L s a0 a1 a2 s1 sends e I Hw H.
   cbn [wf_op] in Hw; try discriminate Hw; split_ands.
-  unfold obj_step, ok, fail in H.
+  unfold obj_step, obj_step_core, ok, fail in H.
   brk_hyp H; inversion H; subst; clear H.
   all: cbn [flat_map send_msgs app].
   all: cbn [op_ids].
@@ -533,7 +533,7 @@ Lemma og_OBufCopyData : forall n L s a0 a1 a2 a3 a4 s1 sends e,
 Proof.
   intros n L s a0 a1 a2 a3 a4 s1 sends e I Hw H.
   cbn [wf_op] in Hw; try discriminate Hw; split_ands.
-  unfold obj_step, ok, fail in H.
+  unfold obj_step, obj_step_core, ok, fail in H.
   brk_hyp H; inversion H; subst; clear H.
   all: cbn [flat_map send_msgs app].
   all: cbn [op_ids].
